@@ -203,6 +203,10 @@ def evaluate(case, out):
             finally:
                 shutil.rmtree(d, ignore_errors=True)
         else:
+            keep = copy.deepcopy(rows)
+            first = CVR.from_raire(rows, phantom=not case["phantom"])[0]   # the rows were read before (as the other kind of record)
+            out.expect(rows == keep, "reader-alters-the-callers-rows", lambda: (rows[:3], keep[:3]))
+            rows = keep
             cvrs = CVR.from_raire(rows, phantom=case["phantom"])[0]
     except Exception as e:  # noqa
         out.lib_exception("raire", e)
